@@ -323,6 +323,8 @@ pub fn run(ctx: &mut Ctx) {
             for _ in 0..4 {
                 scheds.push(Sched::Random(Rng::new(rng.next()), *rng.pick(&[1usize, 5, 100, 5000])));
             }
+            // block-oriented streams: a transfer never crosses a multiple of the block size
+            scheds.push(Sched::Page(*rng.pick(&[100usize, 127, 512, 4096])));
             if bytes.len() > 400_000 || (ctx.quick() && bytes.len() > 60_000) {
                 scheds.retain(|s| !matches!(s, Sched::Fixed(1) | Sched::Fixed(2) | Sched::Fixed(3)));
             }
